@@ -151,6 +151,15 @@ def replay_history(case):
         a = key.split("/")[1]
         if a in ("src", "nosrc") or a not in productmd.common.RPM_ARCHES:
             fails.append("source/unknown arch key %s in manifest (hist=%s)" % (key, _short(case["hist"])))
+    if case.get("focus") == "C10" and got:
+        try:
+            doc = json.loads(m.dumps())
+            for v in doc["payload"]["images"]:
+                for a in doc["payload"]["images"][v]:
+                    if a in ("src", "nosrc") or a not in productmd.common.RPM_ARCHES:
+                        fails.append("dumped payload has source/unknown arch key %s/%s (hist=%s)" % (v, a, _short(case["hist"])))
+        except Exception as exc:
+            fails.append("manifest cannot be written back: %s: %s (hist=%s)" % (type(exc).__name__, exc, _short(case["hist"])))
     return fails
 
 
